@@ -1,4 +1,4 @@
-HOOK_COMMITS = ["246a048", "980d1ce", "4bc6d09", "930c4c9", "0b0f274"]
+HOOK_COMMITS = ["246a048", "980d1ce", "4bc6d09", "930c4c9", "0b0f274", "c35b2c3"]
 
 WIP = "check not built yet in this round (work in progress, see DESIGN.md section 3)"
 NOT_APPLICABLE = {("C%02d" % i): WIP for i in range(1, 20)}
